@@ -336,6 +336,20 @@ def kernelReads : List String :=
 queued sample) -/
 def voiceLoopReads : List String := ["old_vl", "old_vr", "sleft", "sright", "flags", "queued.smp", "vol", "pan", "period"]
 
+/-! ## The search for a free background (NNA) channel in `libxmp_virt_setpatch` (src/virtual.c)
+
+`for (chn = num_tracks; chn < virt_channels && virt_channel[chn++].map > FREE;) ;  … = --chn;`
+over `maps` = the `map` entries of the background channels `num_tracks … virt_channels - 1`. -/
+
+/-- the value of `chn - num_tracks` when the loop stops (the `++` of the failing test included) -/
+def bgLoop : List Int → Nat → Nat
+  | [], chn => chn
+  | m :: r, chn => if m > voiceFree then bgLoop r (chn + 1) else chn + 1
+
+/-- the background channel the old voice is moved to (relative to `num_tracks`): the first free one, or —
+when none is free — the last one examined -/
+def bgSearch (maps : List Int) : Int := (bgLoop maps 0 : Int) - 1
+
 /-! ## A voice slot over time: reuse by another channel -/
 
 /-- the kernel-visible memory of a voice slot that survives from one call to the next -/
